@@ -49,6 +49,28 @@ fn set_env(p: &prog::Program) {
     kanal_verif_rt::ctl::set_knobs(k);
 }
 
+#[derive(serde::Serialize, serde::Deserialize)]
+struct SuiteFile {
+    cfg: runner::RunCfg,
+    rule: String,
+    programs: Vec<prog::Program>,
+}
+
+/// the suite, from the file the driver generated once, or generated here
+fn load_suite(args: &[String]) -> gen::Suite {
+    if let Some(f) = arg(args, "--programs") {
+        let txt = std::fs::read_to_string(&f).expect("programs file");
+        let s: SuiteFile = serde_json::from_str(&txt).expect("programs file json");
+        gen::Suite {
+            cfg: s.cfg,
+            rule: s.rule,
+            programs: s.programs,
+        }
+    } else {
+        gen::suite(&args[2], args[3] == "thorough")
+    }
+}
+
 fn arg(args: &[String], name: &str) -> Option<String> {
     args.iter().position(|a| a == name).and_then(|i| args.get(i + 1).cloned())
 }
@@ -60,6 +82,14 @@ fn main() {
     match cmd {
         "list" => {
             let s = gen::suite(&args[2], args[3] == "thorough");
+            if let Some(f) = arg(&args, "--dump") {
+                let sf = SuiteFile {
+                    cfg: s.cfg.clone(),
+                    rule: s.rule.clone(),
+                    programs: s.programs.clone(),
+                };
+                std::fs::write(&f, serde_json::to_string(&sf).unwrap()).unwrap();
+            }
             let mut counts = std::collections::BTreeMap::new();
             for p in &s.programs {
                 *counts
@@ -76,7 +106,7 @@ fn main() {
             );
         }
         "run" => {
-            let s = gen::suite(&args[2], args[3] == "thorough");
+            let s = load_suite(&args);
             let par: u8 = arg(&args, "--par").unwrap().parse().unwrap();
             let shard = arg(&args, "--shard").unwrap();
             let (i, n) = shard.split_once('/').unwrap();
@@ -124,7 +154,7 @@ fn main() {
         }
         "one" => {
             // run one program given as JSON (file) with a suite's cfg
-            let s = gen::suite(&args[2], args[3] == "thorough");
+            let s = load_suite(&args);
             let p: prog::Program = if let Ok(idx) = args[4].parse::<usize>() {
                 s.programs[idx].clone()
             } else {
